@@ -336,16 +336,19 @@ def expected_groups(data, by, groups, cols=("v",), drop_null_in=()):
     return out
 
 
-def groupby_relations(run, rng, pa, level, pred, data, lazy):
+def groupby_relations(run, rng, pa, level, pred, data, lazy, force=None):
     """groupby hands the function exactly the groups of the grouping columns
-    (restricted by ``groups``)."""
+    (restricted by ``groups``).  ``force`` (replay): the witness' choices."""
     import pandas as pd
     kind = data["kind"]
     n = len(data["v"])
     two = level == "column" and rng.random() < 0.35
-    by = ["g", "h"] if two else ["g"]
     form = rng.choice(["str", "list", "callable"]) if not two else \
         rng.choice(["list", "callable"])
+    if force:
+        two = force["two"]
+        form = force["form"]
+    by = ["g", "h"] if two else ["g"]
     groupby = {"str": "g", "list": list(by),
                "callable": (lambda df: df.groupby(list(by)))}[form]
     ignore_na = True if rng.random() < 0.7 else False
@@ -360,10 +363,12 @@ def groupby_relations(run, rng, pa, level, pred, data, lazy):
     if not two and present and rng.random() < 0.5:
         sel = rng.sample(present, rng.randint(1, len(present)))
         groups = sel[0] if len(sel) == 1 and rng.random() < 0.5 else sel
+    if force:
+        groups, ignore_na = force["groups"], force["ignore_na"]
     glist = None if groups is None else ([groups] if isinstance(groups, str)
                                          else groups)
     J = Judge(run, {"backend": "pandas", "level": level, "pred": pred,
-                    "data": data, "groupby": form if form != "list" else by,
+                    "data": data, "groupby": form, "two_columns": two,
                     "groups": groups, "ignore_na": ignore_na, "lazy": lazy})
     cols = ("v",) if level == "column" else ("v", "w", "g")
     shown = []
